@@ -1,0 +1,28 @@
+// SPDX-FileCopyrightText: 2020-present Open Networking Foundation <info@opennetworking.org>
+//
+// SPDX-License-Identifier: Apache-2.0
+
+//go:build verif
+// +build verif
+
+package mastership
+
+import (
+	"github.com/onosproject/onos-config/pkg/store/topo"
+	"github.com/onosproject/onos-config/pkg/store/v2/configuration"
+)
+
+// NewReconcilerForVerif builds the mastership reconciler for the external verification harness
+func NewReconcilerForVerif(topo topo.Store, configurations configuration.Store) *Reconciler {
+	return &Reconciler{topo: topo, configurations: configurations}
+}
+
+// NewTopoWatcherForVerif builds the topo watcher of the mastership controller
+func NewTopoWatcherForVerif(topo topo.Store) *TopoWatcher {
+	return &TopoWatcher{topo: topo}
+}
+
+// NewConfigurationStoreWatcherForVerif builds the configuration store watcher of the mastership controller
+func NewConfigurationStoreWatcherForVerif(configurations configuration.Store) *ConfigurationStoreWatcher {
+	return &ConfigurationStoreWatcher{configurations: configurations}
+}
